@@ -98,3 +98,22 @@ def bounded_harness(tier, prop, name, rule, seed=0, focus="", segonly=False, bud
     if "scenarios_tried" not in r:
         out["error"] = r.get("search_error", "no result")
     return out
+
+
+def bounded_paint(tier, prop, rule, ignore=()):
+    """every rectangular paint / erase stroke (1x1..2x3, every position, every frame) on two small label videos, every
+    label choice, every existing or a fresh track id, force on/off, both group orders, each followed by undo and redo;
+    the property's oracle after every step.  Exhaustive over that finite family; a bounded stand-in for the
+    paint-driven UserUpdateSegmentation, never counted as proved"""
+    args = ["--prop", prop, "--paint-exhaustive", "1"]
+    for pat in ignore:
+        args += ["--ignore", pat]
+    r = run_harness("harness.py", args, 900)
+    out = {"name": "paint-strokes-exhaustive", "rule": rule + "; every rectangular stroke up to 2x3 on two 3-frame fixtures x label x track id x force x group order, then undo, redo",
+           "bound": {"stroke": "<=2x3 rectangle", "fixtures": 2, "frames": 3}, "cases": r.get("scenarios_tried", 0),
+           "nontrivial": r.get("scenarios_tried", 0), "exhaustive": True, "violations": [], "known_seen": r.get("known", [])}
+    if r.get("found"):
+        out["violations"] = [{"found": True, "scenario": r["scenario"], "violations": r["violations"], "script": "harness.py"}]
+    if "scenarios_tried" not in r:
+        out["error"] = r.get("search_error", "no result")
+    return out
